@@ -7,7 +7,7 @@ import itertools as itt
 from ..common import Unsupported
 from . import exact
 from .denote import Denoter, free_names
-from .freedist import ExactFree, SymFree
+from .freedist import MAX_COORDS, CoordRecorder, ExactFree, ExactFreeCW, SymFree, SymFreeCW
 from .harness import grid_params
 from .rat import Decider, differ_any
 
@@ -18,6 +18,23 @@ def all_envs(names, card):
         yield dict(zip(names, vals))
 
 
+def cw_coords(e1, e2, names):
+    """Coordinates of the single joint over counterfactual variables, if the expressions contain a term that mixes
+    worlds and the joint stays small; else None (per-world free joints, cross-world terms uninterpreted)."""
+    rec = CoordRecorder(names)
+    den = Denoter(rec, default_pop="obs")
+    try:
+        for env in all_envs(free_names(e1) | free_names(e2), rec.card):
+            den.ev(e1, env, env)
+            den.ev(e2, env, env)
+    except (Unsupported, KeyError):
+        return None
+    coords = rec.frozen()
+    if not rec.used_cw or any(len(c) > MAX_COORDS for c in coords.values()):
+        return None
+    return coords
+
+
 def compare(e1, e2, names, timeout_ms=10000, precheck_only=False):
     """Decide  forall distributions, env: [[e1]] * scale == [[e2]].
 
@@ -25,7 +42,8 @@ def compare(e1, e2, names, timeout_ms=10000, precheck_only=False):
     'skip' = an expression is outside the evaluator's vocabulary / ill-scoped (reason given).
     """
     names = set(names)
-    world = SymFree(names)
+    coords = cw_coords(e1, e2, names)
+    world = SymFreeCW(names, coords) if coords else SymFree(names)
     den = Denoter(world, default_pop="obs")
     try:
         fn = free_names(e1) | free_names(e2)
@@ -46,7 +64,7 @@ def compare(e1, e2, names, timeout_ms=10000, precheck_only=False):
         return {"verdict": "ok"}
     dec = Decider(world.constraints, timeout_ms, world.params)
     verdict, model, dt = differ_any(dec, pairs)
-    out = {"verdict": verdict, "secs": dt, "n_envs": len(envs), "cross_world": world.used_cw}
+    out = {"verdict": verdict, "secs": dt, "n_envs": len(envs), "cross_world": world.used_cw, "cw_joint": bool(coords)}
     if verdict == "sat":
         cands = [world.model_to_params(model)] + [grid_params(world.params, s) for s in range(6)]
         for params in cands:
@@ -61,7 +79,8 @@ def compare(e1, e2, names, timeout_ms=10000, precheck_only=False):
 
 def exact_differ(e1, e2, names, params, envs=None):
     """Exact re-evaluation on a concrete world; returns dict(env, v1, v2) for the first difference."""
-    w = ExactFree(names, params)
+    coords = cw_coords(e1, e2, names)  # always from all value assignments, so that a replay builds the same joint
+    w = ExactFreeCW(names, params, coords) if coords else ExactFree(names, params)
     if envs is None:
         try:
             fn = free_names(e1) | free_names(e2)
